@@ -260,6 +260,22 @@ func recordConcExec(args []string) error {
 		// a shared pool of queries so that goroutines overlap on sub-expressions
 		eg := &exprGen{rng: rng, leaves: leaves}
 		var pool []vx.Query
+		// a few wide nodes over all leaves in shuffled order, alone and nested: what every goroutine starts with
+		for k := 0; k < 3; k++ {
+			perm := rng.Perm(len(leaves))
+			wideNode := &vx.Expr{Op: []string{"or", "and", "or"}[k]}
+			for _, li := range perm[:12] {
+				l := &vx.Expr{Op: "eq", Col: leaves[li][0], Val: leaves[li][1]}
+				if k == 1 {
+					l = &vx.Expr{Op: "not", E: l}
+				}
+				wideNode.Es = append(wideNode.Es, l)
+			}
+			if k == 2 {
+				wideNode = &vx.Expr{Op: "and", Es: []*vx.Expr{{Op: "not", E: &vx.Expr{Op: "eq", Col: 1, Val: 6}}, wideNode}}
+			}
+			pool = append(pool, vx.Query{E: wideNode})
+		}
 		for k := 0; k < 25; k++ {
 			var gb []int
 			if rng.Intn(4) == 0 {
@@ -273,9 +289,16 @@ func recordConcExec(args []string) error {
 			vx.Query{E: &vx.Expr{Op: "and", Es: []*vx.Expr{pool[0].E, {Op: "not", E: unk}}}},
 			vx.Query{E: &vx.Expr{Op: "or", Es: []*vx.Expr{{Op: "and", Es: []*vx.Expr{unk, pool[1].E}}, pool[2].E}}},
 			vx.Query{E: pool[3].E, GB: []int{4}})
+		// the same *updog.Query values handed to every goroutine (a query kept in a variable and executed by many
+		// request handlers): built once per run, so that their first executions overlap
+		sharedQ := make([]*updog.Query, len(pool))
+		for i, q := range pool {
+			sharedQ[i] = d.ToQuery(q)
+		}
 		ng := []int{2, 4, 8, 16}[rng.Intn(4)]
 		var mu sync.Mutex
 		var wg sync.WaitGroup
+		startAll := make(chan struct{})
 		seeds := make([]int64, ng)
 		for g := range seeds {
 			seeds[g] = rng.Int63()
@@ -285,15 +308,24 @@ func recordConcExec(args []string) error {
 			go func(g int) {
 				defer wg.Done()
 				lr := rand.New(rand.NewSource(seeds[g]))
+				<-startAll
 				for k := 0; k < *perG; k++ {
-					q := pool[lr.Intn(len(pool))]
-					if lr.Intn(3) == 0 {
-						q = pool[len(pool)-1-lr.Intn(5)] // the failing ones, often and at the same time
+					qi := lr.Intn(len(pool))
+					if k < 6 {
+						qi = k // everybody starts with the same few (wide) queries
 					}
+					if lr.Intn(3) == 0 && k >= 6 {
+						qi = len(pool) - 1 - lr.Intn(5) // the failing ones, often and at the same time
+					}
+					q := pool[qi]
 					if lr.Intn(10) == 0 {
 						idx.GetSchema()
 					}
-					res := d.ResOf(vx.Exec(idx, d.ToQuery(q)))
+					uq := d.ToQuery(q)
+					if k < 6 || lr.Intn(2) == 0 {
+						uq = sharedQ[qi]
+					}
+					res := d.ResOf(vx.Exec(idx, uq))
 					gb := q.GB
 					if gb == nil {
 						gb = []int{}
@@ -304,6 +336,7 @@ func recordConcExec(args []string) error {
 				}
 			}(g)
 		}
+		close(startAll)
 		if !waitOr(&wg, 90*time.Second) {
 			// the goroutines never came back (a deadlock in the code under test): the trace ends with an event no
 			// action of the specification matches
@@ -449,6 +482,7 @@ func recordLRUConc(args []string) error {
 		emu.Unlock()
 	}
 	for r := 0; r < *runs; r++ {
+		lruKeyMode = r // one key map per cache (see ck)
 		max := []uint64{0, 300, 1000, 5000, 1 << 20}[rng.Intn(5)]
 		c := updog.NewLRUCache(max)
 		emit(map[string]any{"ev": "NewCache", "max": max})
@@ -482,11 +516,11 @@ func recordLRUConc(args []string) error {
 							ids[b] = id
 							idmu.Unlock()
 							emit(map[string]any{"ev": "Call", "t": t + 1, "op": "put", "k": o.k, "size": b.GetSizeInBytes(), "bm": id})
-							c.Put(uint64(o.k), b)
+							c.Put(ck(o.k), b)
 							emit(map[string]any{"ev": "Ret", "t": t + 1, "hit": false, "bm": 0})
 						} else {
 							emit(map[string]any{"ev": "Call", "t": t + 1, "op": "get", "k": o.k, "size": 0, "bm": 0})
-							b, ok := c.Get(uint64(o.k))
+							b, ok := c.Get(ck(o.k))
 							id := 0
 							if ok {
 								idmu.Lock()
@@ -509,7 +543,7 @@ func recordLRUConc(args []string) error {
 		// quiescent sweep pins the final state down
 		for k := 1; k <= 4; k++ {
 			emit(map[string]any{"ev": "Call", "t": 1, "op": "get", "k": k, "size": 0, "bm": 0})
-			b, ok := c.Get(uint64(k))
+			b, ok := c.Get(ck(k))
 			id := 0
 			if ok {
 				id = ids[b]
